@@ -616,6 +616,99 @@ func c17Hosts() []c17Host {
 	return hs
 }
 
+var c17Conditional = []string{"PLUGIN_MULTIPLEX_GRPC=true", "PLUGIN_CLIENT_CERT=hostcert", "PLUGIN_UNIX_SOCKET_GROUP=hostgroup", "PLUGIN_UNIX_SOCKET_DIR=/hostdir"}
+
+// c17AdjacentHosts: host environments in which go-plugin's conditional
+// variables stand NEXT TO EACH OTHER — what the environment of a host that is
+// itself a plugin looks like (Client.Start appends them one after the other).
+// A filter that does not look at every entry (e.g. deletes in place and moves
+// on) passes single or separated variables and fails only on these.
+//
+//	adjacent-pair   every ordered pair, at the start / in the middle / at the end
+//	adjacent-run    every ordered triple and every order of all four, in the middle
+//	separated-pair  every ordered pair with a user variable in between (control)
+//	nested-host     the conditional entries a real outer client hands to its plugin,
+//	                in the order it hands them over (obtained from the real code)
+func c17AdjacentHosts() []c17Host {
+	var hs []c17Host
+	cv := c17Conditional
+	for i := range cv {
+		for j := range cv {
+			if i == j {
+				continue
+			}
+			hs = append(hs,
+				c17Host{"adjacent-pair", []string{cv[i], cv[j], "HOME=/h", "PLUGIN_FOO=user", "LANG=C"}},
+				c17Host{"adjacent-pair", []string{"HOME=/h", cv[i], cv[j], "PLUGIN_FOO=user", "LANG=C"}},
+				c17Host{"adjacent-pair", []string{"HOME=/h", "PLUGIN_FOO=user", "LANG=C", cv[i], cv[j]}},
+				c17Host{"separated-pair", []string{"HOME=/h", cv[i], "PLUGIN_FOO=user", cv[j], "LANG=C"}})
+			for k := range cv {
+				if k == i || k == j {
+					continue
+				}
+				hs = append(hs, c17Host{"adjacent-run", []string{"HOME=/h", cv[i], cv[j], cv[k], "LANG=C"}})
+				l := 6 - i - j - k
+				hs = append(hs, c17Host{"adjacent-run", []string{"HOME=/h", cv[i], cv[j], cv[k], cv[l], "LANG=C"}})
+			}
+		}
+	}
+	return hs
+}
+
+// c17NestedHosts asks the real client what it puts into its plugin's
+// environment for outer configurations with several features on, and returns
+// host environments carrying exactly those go-plugin entries in that order
+// (the certificate value replaced by a short token, the socket directory by a
+// fixed path).
+func c17NestedHosts(gid string) []c17Host {
+	var hs []c17Host
+	for _, oc := range []struct{ mux, mtls, group bool }{{true, true, false}, {true, true, true}, {false, true, true}, {true, false, true}} {
+		var got []string
+		cfg := &plugin.ClientConfig{
+			HandshakeConfig:     plugin.HandshakeConfig{ProtocolVersion: 1, MagicCookieKey: "OUTER_COOKIE", MagicCookieValue: "outer"},
+			Plugins:             plugin.PluginSet{},
+			Logger:              nullLogger(),
+			GRPCBrokerMultiplex: oc.mux,
+			AutoMTLS:            oc.mtls,
+			SkipHostEnv:         true,
+			AllowedProtocols:    []plugin.Protocol{plugin.ProtocolGRPC},
+			Stderr:              io.Discard,
+			RunnerFunc: func(l hclog.Logger, cm *exec.Cmd, tmpDir string) (runner.Runner, error) {
+				got = append([]string(nil), cm.Env...)
+				fr := newFakeRunner()
+				fr.startErr = errC17Capture
+				return fr, nil
+			},
+		}
+		if oc.group {
+			cfg.UnixSocketConfig = &plugin.UnixSocketConfig{Group: gid}
+		}
+		_, hung, pan := withTimeout(20*time.Second, func() error {
+			c := plugin.NewClient(cfg)
+			c.Start()
+			c.Kill()
+			return nil
+		})
+		if hung || pan != nil {
+			continue
+		}
+		env := []string{"HOME=/h"}
+		for _, e := range got {
+			k := cutKeyGo(e)
+			switch {
+			case k == "PLUGIN_CLIENT_CERT":
+				env = append(env, k+"=outercert")
+			case k == "PLUGIN_UNIX_SOCKET_DIR":
+				env = append(env, k+"=/outerdir")
+			case c17IsName(k) || k == "OUTER_COOKIE":
+				env = append(env, e)
+			}
+		}
+		hs = append(hs, c17Host{"nested-host", append(env, "LANG=C")})
+	}
+	return hs
+}
+
 func c17Presets() [][]string {
 	return [][]string{
 		nil,
@@ -684,6 +777,15 @@ func c17Generate(r *rng, gid string, nRandom int, allChildren bool) []*envCase {
 			}
 		}
 	}
+	// conditional variables next to each other in the host environment
+	adj := append(c17AdjacentHosts(), c17NestedHosts(gid)...)
+	for _, h := range adj {
+		cases = append(cases, mk("runner", 0, nil, h, false), mk("cmd", 0, nil, h, false),
+			mk("runner", 5, nil, h, false), mk("cmd", 2, nil, h, true))
+		if allChildren || h.name == "nested-host" {
+			cases = append(cases, mk("child", 0, nil, h, false))
+		}
+	}
 	// seeded random combinations: any subset of go-plugin's variables (and user
 	// variables) in the host environment and in the pre-set cmd.Env
 	vals := []string{"true", "false", "", "1", "hostvalue", "/some/dir", "7,8"}
@@ -713,6 +815,24 @@ func c17Generate(r *rng, gid string, nRandom int, allChildren bool) []*envCase {
 			k := q.intn(j + 1)
 			host[j], host[k] = host[k], host[j]
 		}
+		// every other case: go-plugin's variables gathered into one adjacent run
+		// at a random position (a host that is itself a plugin)
+		hname := "random"
+		if q.bool() {
+			var neg, rest []string
+			for _, e := range host {
+				if c17IsName(cutKeyGo(e)) {
+					neg = append(neg, e)
+				} else {
+					rest = append(rest, e)
+				}
+			}
+			if len(neg) >= 2 {
+				at := q.intn(len(rest) + 1)
+				host = append(append(append([]string(nil), rest[:at]...), neg...), rest[at:]...)
+				hname = "random-adjacent"
+			}
+		}
 		if mode != "runner" {
 			for _, n := range c17Names {
 				if q.intn(6) == 0 {
@@ -723,7 +843,7 @@ func c17Generate(r *rng, gid string, nRandom int, allChildren bool) []*envCase {
 				preset = append(preset, pick(q, []string{"USERVAR=p", "BARE", "HOME=/preset", "@COOKIE=p"}))
 			}
 		}
-		c := mk(mode, q.intn(16), preset, c17Host{"random", host}, q.bool())
+		c := mk(mode, q.intn(16), preset, c17Host{hname, host}, q.bool())
 		cases = append(cases, c)
 	}
 	return cases
@@ -766,9 +886,28 @@ func hostC17(o *out, replay string) {
 	o.note("C17 cases=%d by launch mode: %s", len(cases), countsString(byMode))
 	o.note("C17 host environment classes: %s", countsString(byHost))
 	o.note("C17 configs: {mux, AutoMTLS, socket group, SkipHostEnv} all 16 combinations x 13 host classes x (runner | cmd x 4 pre-set cmd.Env | child subset); cookie/version-set/port variants rotate with the case index; %d seeded random cases", n)
+	o.note("C17 adjacency: host environments with conditional variables next to each other — every ordered pair at start/middle/end, every ordered triple and all 24 orders of the four, separated pairs as control, the entries of real outer clients in their order (nested-host) — x 4 configurations; %d host environments contain two or more adjacent conditional variables", c17CountAdjacent(cases))
 	if len(fails) > 0 {
 		o.note("C17 predicate failures by signature: %s", countsString(fails))
 	}
+}
+
+// c17CountAdjacent: cases whose host environment has a conditional variable directly after another one.
+func c17CountAdjacent(cases []*envCase) int {
+	isCond := func(e string) bool {
+		k := cutKeyGo(e)
+		return k == "PLUGIN_MULTIPLEX_GRPC" || k == "PLUGIN_CLIENT_CERT" || k == "PLUGIN_UNIX_SOCKET_GROUP" || k == "PLUGIN_UNIX_SOCKET_DIR"
+	}
+	n := 0
+	for _, c := range cases {
+		for i := 1; i < len(c.host); i++ {
+			if isCond(c.host[i-1]) && isCond(c.host[i]) {
+				n++
+				break
+			}
+		}
+	}
+	return n
 }
 
 func countsString(m map[string]int) string {
